@@ -23,6 +23,7 @@ import (
 	"net/http"
 	"net/http/httptest"
 	"os"
+	"os/signal"
 	"path/filepath"
 	"strings"
 	"sync"
@@ -30,6 +31,7 @@ import (
 	"syscall"
 	"testing"
 	"time"
+	"unsafe"
 
 	"github.com/AdguardTeam/AdGuardHome/internal/client"
 	"github.com/AdguardTeam/AdGuardHome/internal/configmigrate"
@@ -54,6 +56,9 @@ type zzC14Spec struct {
 	Resume bool `json:"resume"`
 	// Gen distinguishes the documents of successive children on one root.
 	Gen int `json:"gen"`
+	// Faults, parallel to Sizes: the failure injected into that save ("":
+	// none), see zzC14Fault.
+	Faults []string `json:"faults"`
 }
 
 // zzC14Writer is one of the real save paths.
@@ -179,11 +184,18 @@ func zzC14Run(t *testing.T, sp *zzC14Spec, w zzC14Writer) {
 			zzC14CrashWatcher(dst)
 		}
 
+		fault := ""
+		if i < len(sp.Faults) {
+			fault = sp.Faults[i]
+		}
+
 		ver++
 		lg.add(map[string]any{"ev": "begin", "id": ver, "want": size})
+		undo, faulted := zzC14Fault(t, fault, dst)
 		zzC14Mark(fmt.Sprintf("begin/%d", ver))
 		err := w.save(t, ver, size)
 		zzC14Mark(fmt.Sprintf("end/%d", ver))
+		undo()
 
 		row := map[string]any{"ev": "end", "id": ver}
 		if err != nil {
@@ -210,9 +222,20 @@ func zzC14Run(t *testing.T, sp *zzC14Spec, w zzC14Writer) {
 		row["n"] = len(data)
 		row["is"] = is
 		row["sha"] = zzC14Sha(data)
+		if fault != "" {
+			row["fault"] = fault
+			row["faulted"] = faulted
+		}
+
 		if want := w.intended(ver); want >= 0 {
 			row["noop"] = true
 			row["decl"] = want
+			row["ok"] = is == last
+		} else if faulted && is != ver {
+			// The save failed under the injected fault: there is no new
+			// version, the path must hold what it held.
+			row["noop"] = true
+			row["decl"] = -1
 			row["ok"] = is == last
 		} else {
 			row["decl"] = len(data)
@@ -292,6 +315,111 @@ func zzC14CrashWatcher(dst string) {
 			time.Sleep(100 * time.Microsecond)
 		}
 	}()
+}
+
+// zzC14SetImmutable sets or clears the immutable attribute of p.
+func zzC14SetImmutable(p string, on bool) (err error) {
+	const (
+		getFlags = 0x80086601 // FS_IOC_GETFLAGS
+		setFlags = 0x40086602 // FS_IOC_SETFLAGS
+		immFlag  = 0x10       // FS_IMMUTABLE_FL
+	)
+
+	f, err := os.Open(p)
+	if err != nil {
+		return err
+	}
+	defer func() { _ = f.Close() }()
+
+	var fl int64
+	_, _, en := syscall.Syscall(syscall.SYS_IOCTL, f.Fd(), getFlags, uintptr(unsafe.Pointer(&fl)))
+	if en != 0 {
+		return en
+	}
+
+	if on {
+		fl |= immFlag
+	} else {
+		fl &^= immFlag
+	}
+
+	_, _, en = syscall.Syscall(syscall.SYS_IOCTL, f.Fd(), setFlags, uintptr(unsafe.Pointer(&fl)))
+	if en != 0 {
+		return en
+	}
+
+	return nil
+}
+
+// zzC14Fault makes the environment hostile for the duration of one save and
+// returns the function that undoes it.  A failing system call is a point of a
+// save like any other: the path must keep the complete previous version (or
+// get the complete new one).  Kinds:
+//
+//	fsize:K  RLIMIT_FSIZE = K bytes with SIGXFSZ ignored: every write beyond
+//	         K bytes of any file is cut short / fails with EFBIG ("disk full");
+//	nodir    the destination's directory is moved away: creating the
+//	         temporary file fails with ENOENT;
+//	immdir   the directory is immutable: creating fails with EPERM;
+//	immdst   the destination file is immutable: the rename onto it (and any
+//	         open for writing) fails with EPERM.
+//
+// applied is false if the fault cannot be produced here (then the save runs
+// undisturbed).
+func zzC14Fault(t *testing.T, kind, dst string) (undo func(), applied bool) {
+	dir := filepath.Dir(dst)
+	switch {
+	case kind == "":
+		return func() {}, false
+	case strings.HasPrefix(kind, "fsize:"):
+		var k uint64
+		_, _ = fmt.Sscanf(kind, "fsize:%d", &k)
+		old := syscall.Rlimit{}
+		if err := syscall.Getrlimit(syscall.RLIMIT_FSIZE, &old); err != nil {
+			return func() {}, false
+		}
+
+		signal.Ignore(syscall.SIGXFSZ)
+		if err := syscall.Setrlimit(syscall.RLIMIT_FSIZE, &syscall.Rlimit{Cur: k, Max: old.Max}); err != nil {
+			return func() {}, false
+		}
+
+		return func() {
+			if err := syscall.Setrlimit(syscall.RLIMIT_FSIZE, &old); err != nil {
+				t.Fatalf("c14: restoring RLIMIT_FSIZE: %v", err)
+			}
+		}, true
+	case kind == "nodir":
+		away := dir + ".zzc14away"
+		if err := os.Rename(dir, away); err != nil {
+			return func() {}, false
+		}
+
+		return func() {
+			if err := os.Rename(away, dir); err != nil {
+				t.Fatalf("c14: moving the directory back: %v", err)
+			}
+		}, true
+	case kind == "immdir" || kind == "immdst":
+		p := dir
+		if kind == "immdst" {
+			p = dst
+		}
+
+		if err := zzC14SetImmutable(p, true); err != nil {
+			return func() {}, false
+		}
+
+		return func() {
+			if err := zzC14SetImmutable(p, false); err != nil {
+				t.Fatalf("c14: clearing the immutable attribute of %q: %v", p, err)
+			}
+		}, true
+	default:
+		t.Fatalf("c14: unknown fault %q", kind)
+
+		return nil, false
+	}
 }
 
 func zzC14LoadSpec(t *testing.T) (sp *zzC14Spec) {
